@@ -29,7 +29,7 @@ theorem den_asComplete : ∀ l : Loc, den (asComplete l) = den l
   | .between _ => rfl
   | .point _ => rfl
   | .ambiguous _ _ => rfl
-  | .compl _ => rfl
+  | .compl l => by simp [asComplete, den, den_asComplete l]
 theorem denList_asComplete : ∀ ls : List Loc, denList (asCompleteList ls) = denList ls
   | [] => rfl
   | l :: ls => by simp [asCompleteList, denList, den_asComplete l, denList_asComplete ls]
